@@ -258,6 +258,16 @@ pub fn run(ctx: &Ctx) -> (Spec, Report) {
                         } else {
                             "letters-differ"
                         };
+                        if source == "exhaustive" {
+                            // order-independent digest of the (identifier, typeshare's name) pairs of this class over the
+                            // exhaustive set: the class becomes a different signature as soon as its membership changes
+                            let mut h: u64 = 0xcbf29ce484222325;
+                            for b in id.bytes().chain(std::iter::once(0)).chain(g.bytes()) {
+                                h = (h ^ b as u64).wrapping_mul(0x100000001b3);
+                            }
+                            let e = rep.monitors.entry(format!("set-digest:C16|{pos}|{rule}|{cls}|{kind}")).or_insert(0);
+                            *e = e.wrapping_add(h);
+                        }
                         rep.violate(
                             format!("C16|{pos}|{rule}|{cls}|{kind}"),
                             format!("{pos} {id:?} under {rule}: typeshare {g:?}, serde_derive {w:?}"),
@@ -339,6 +349,21 @@ pub fn run(ctx: &Ctx) -> (Spec, Report) {
         rep
     });
     rep.merge(r2);
+    // a class of disagreement is identified together with the set of identifiers it holds on the exhaustive part
+    {
+        let digests: Vec<(String, u64)> = rep.monitors.iter().filter(|(k, _)| k.starts_with("set-digest:")).map(|(k, v)| (k["set-digest:".len()..].to_string(), *v)).collect();
+        rep.monitors.retain(|k, _| !k.starts_with("set-digest:"));
+        for (sig, d) in digests {
+            let renamed = format!("{sig}|set={:08x}", (d ^ (d >> 32)) as u32);
+            if let Some(c) = rep.viol_counts.remove(&sig) {
+                rep.viol_counts.insert(renamed.clone(), c);
+            }
+            for v in rep.violations.iter_mut().filter(|v| v.sig == sig) {
+                v.sig = renamed.clone();
+            }
+        }
+        rep.count("disagreement_classes_identified_by_member_set", rep.viol_counts.keys().filter(|k| k.contains("|set=")).count() as u64);
+    }
     let spec = Spec {
         level: "exploration",
         rule: format!(
